@@ -534,10 +534,23 @@ class AnotherSolution(Contract):
                 seqs += [("another", "another", "another"), ("variable", "variable", "another"), ("another", "variable", "another")]
             for seq in seqs:
                 out.append(dict(optional=optional, seq=seq))
+            # resources whose busy intervals are not fixed by the task timing (a worker chosen by a selection, a worker
+            # that may join late): two schedules that differ only there are the same timing
+            for res in ("select", "dynamic"):
+                for seq in (("another",), ("another", "another")):
+                    out.append(dict(optional=optional, seq=seq, res=res))
         return out
 
     def scenario(self, ps, P, case):
-        pb, t1, t2 = small_problem(ps, P, optional=case["optional"])
+        res = case.get("res", "static")
+        pb, t1, t2 = small_problem(ps, P, optional=case["optional"], resources=(res == "static"))
+        if res != "static":
+            w = ps.Worker(name="w")
+            t1.add_required_resource(w)
+            if res == "select":
+                t2.add_required_resource(ps.SelectWorkers(list_of_workers=[w, ps.Worker(name="w2")], nb_workers_to_select=1))
+            else:
+                t2.add_required_resource(w, dynamic=True)
         solver = ps.SchedulingSolver(problem=pb)
         results = [solver.solve()]
         base = list(asserted(solver))
@@ -597,7 +610,7 @@ class AnotherSolution(Contract):
         return out
 
 
-def _enumerate_native(ps, H, d1, optional, first="another"):
+def _enumerate_native(ps, H, d1, optional, first="another", res="static"):
     """real library: solve, then find_another_solution until it fails; returns the set of reported timings"""
     import io, contextlib
 
@@ -607,7 +620,12 @@ def _enumerate_native(ps, H, d1, optional, first="another"):
         t2 = ps.VariableDurationTask(name="t2", optional=optional)
         w = ps.Worker(name="w")
         t1.add_required_resource(w)
-        t2.add_required_resource(w)
+        if res == "select":
+            t2.add_required_resource(ps.SelectWorkers(list_of_workers=[w, ps.Worker(name="w2")], nb_workers_to_select=1))
+        elif res == "dynamic":
+            t2.add_required_resource(w, dynamic=True)
+        else:
+            t2.add_required_resource(w)
         solver = ps.SchedulingSolver(problem=pb)
         seen = []
         sol = solver.solve()
@@ -634,9 +652,9 @@ def _another_native_search(case, params, ob):
     ps = runner.native_ps()
     H, d1 = params.get("H", 3), params.get("d1", 1)
     for h in sorted({H, min(H + 1, 6), 3, 4}):
-        seen, allt = _enumerate_native(ps, h, d1, case["optional"])
+        seen, allt = _enumerate_native(ps, h, d1, case["optional"], res=case.get("res", "static"))
         if len(set(seen)) != len(seen) or len(set(seen)) != len(allt):
-            return {"confirmed": True, "observation": {"horizon": h, "d1": d1, "optional": case["optional"], "enumerated_by_find_another_solution": len(seen), "distinct": len(set(seen)), "valid_timings_by_brute_force": len(allt)}}
+            return {"confirmed": True, "observation": {"horizon": h, "d1": d1, "optional": case["optional"], "resources": case.get("res", "static"), "enumerated_by_find_another_solution": len(seen), "distinct": len(set(seen)), "valid_timings_by_brute_force": len(allt)}}
     return {"confirmed": False, "observation": {"searched_horizons": sorted({H, min(H + 1, 6), 3, 4})}}
 
 
